@@ -34,7 +34,11 @@ pub enum End {
     Harness(String),
 }
 
+pub const BYSTANDER: u8 = 4;
+
 pub struct Outcome {
+    /// Fingerprint of what each host showed last (0 when the host does not exist).
+    pub host_final: Vec<u64>,
     /// Digest of the observations only (what a front-end saw), comparable between a run
     /// on SimDisk and the same run on the real file system.
     pub obs_digest: u64,
@@ -1481,9 +1485,15 @@ impl<'a> World<'a> {
                 Err(msg) => return Err(self.panic_stop("ongoing_input_session", msg)),
             }
         };
-        if !idle {
+        let mid_word = !idle;
+        if mid_word && self.scenario != Scenario::UserfileFaults {
             self.skip(op, "not_idle");
             return Ok(());
+        }
+        if mid_word {
+            // C10 only: "re-loading the configuration keeps working" has no idle premise.
+            // Nothing but survival (F1) is judged for what follows until the word ends.
+            self.stats.bump("probe.update_in_the_middle_of_a_word");
         }
         let old = self.slots[h as usize].as_ref().unwrap().host.spec;
         if old.data != cfg.data {
@@ -1532,7 +1542,15 @@ impl<'a> World<'a> {
             _ => "probe.update_fixed_to_fixed",
         });
         let mut slot = self.slots[h as usize].take().unwrap();
-        slot.fe.reset();
+        if mid_word {
+            // the front-end's idea of the composition is no longer reliable
+            slot.fe.typed_ok = false;
+            slot.fe.model_ok = false;
+            let w = learn::loose_word(&slot.fe.typed);
+            slot.lm.taint(&w);
+        } else {
+            slot.fe.reset();
+        }
         if self.scenario == Scenario::UserfileFaults && old.layout != cfg.layout {
             // a layout change replaces the method object: the new one knows what the disk holds
             slot.lm = self.durable.clone().unwrap_or_default();
@@ -2057,6 +2075,14 @@ impl<'a> World<'a> {
             }
         }
         let final_store = self.disk.get(FileId::Store).as_deref().and_then(learn::parse_store);
+        let host_final: Vec<u64> = self
+            .slots
+            .iter()
+            .map(|s| match s {
+                Some(s) if s.host.alive() => s.host.last.fingerprint(fnv_add(0xcbf2_9ce4_8422_2325, s.fe.typed.as_bytes())),
+                _ => 0,
+            })
+            .collect();
         // drop all contexts before uninstalling the disk
         for s in self.slots.iter_mut() {
             *s = None;
@@ -2070,6 +2096,7 @@ impl<'a> World<'a> {
         self.stats.add("disk.writes_served", w);
         self.stats.runs += 1;
         Outcome {
+            host_final,
             obs_digest: self.obs_digest,
             final_store,
             end,
@@ -2080,9 +2107,41 @@ impl<'a> World<'a> {
 }
 
 pub fn execute(env: &Env, plan: &Plan, stats: &mut Stats, opts: ExecOpts) -> (Outcome, Vec<String>) {
-    let mut w = World::new(env, plan, stats, opts);
-    let o = w.run(plan);
-    let log = std::mem::take(&mut w.log);
+    let (mut o, mut log) = {
+        let mut w = World::new(env, plan, stats, opts.clone());
+        let o = w.run(plan);
+        let log = std::mem::take(&mut w.log);
+        (o, log)
+    };
+    // C05, "while other contexts are being used in the same process": the same history
+    // without the bystander context must show the same on every other host. (Inside one
+    // process all contexts see the same shared state and agree with each other, so only
+    // taking the other context away can show that it mattered.)
+    if plan.scenario == Scenario::HistoryIndependence
+        && matches!(o.end, End::Ok)
+        && plan.ops.iter().any(|op| op.host() == Some(BYSTANDER))
+    {
+        let mut stripped = plan.clone();
+        stripped.ops.retain(|op| op.host() != Some(BYSTANDER));
+        let mut scratch = Stats::default();
+        let mut w = World::new(env, &stripped, &mut scratch, ExecOpts { log: false, ..opts });
+        let o2 = w.run(&stripped);
+        stats.evaluations += 1;
+        stats.bump("oracle.C05_bystander_removed_compared");
+        if matches!(o2.end, End::Ok) {
+            for h in 0..(BYSTANDER as usize) {
+                if o.host_final.get(h) != o2.host_final.get(h) {
+                    let detail = format!(
+                        "host {} ends showing something else when the bystander context (another configuration, used in the same process) is taken out of the same history",
+                        h
+                    );
+                    log.push(format!("bystander-independence: {}", detail));
+                    o.end = End::Violation(Violation { clause: "bystander-independence".into(), detail, op_index: plan.ops.len() });
+                    break;
+                }
+            }
+        }
+    }
     (o, log)
 }
 
